@@ -80,6 +80,7 @@ class Scheduler:
         self.t0 = time.monotonic()
         self.wall_cap_s = wall_cap_s
         self.thread_exceptions = []
+        self.timed_waits = 0  # blocking waits that carried a timeout (the implementation offers the scheduler "fire the timeout")
         self.detached_threads = 0  # times the token was taken away from a thread blocked outside the scheduler's primitives
         self._stall = None  # ((steps, thread name, frame id, instruction), first seen)
         self.parked_tokens = 0
@@ -189,6 +190,8 @@ class Scheduler:
         with self.mutex:
             self.steps += 1
             me.steps += 1
+            if me.may_time_out and me.status not in (RUNNABLE, DONE):
+                self.timed_waits += 1
             if self.steps > self.step_cap:
                 self._abort("step-cap", {"steps": self.steps})
             elif time.monotonic() - self.t0 > self.wall_cap_s:
